@@ -72,7 +72,7 @@ def only_terms(ctx, rule, fa, node, allowed, what, assume=(), key=None):
     decides whether `node` is reached.  `allowed` are guard texts; their conjunct terms are used."""
     terms_ok = set()
     for g in allowed:
-        terms_ok |= {t for t, _ in terms.parse_guard(g)}
+        terms_ok |= terms.atoms_of_text(g)
     have, F = atomic_facts_at(fa, node, assume)
     if not fa.reachable(node, assume):
         return ctx.ob(rule, False, fa.site(node), what, detail="the construct is unreachable on every feasible path (dead code)", func=fa.fi.qualname, key=key)
@@ -121,6 +121,34 @@ def lazy_cache(ctx, rule, fa, attr, what, value_pred=None, extra_ok=()):
     p = fa.path([fa.cfg.entry], [fa.cfg.exit], avoid=lambda n: n.kind == "return", include_exc=False)
     ctx.ob(rule, bool(cached) and p is None, fa.site(), f"{what}: self.{attr} is returned and no path falls off the end", func=q, key=f"{rule}|{q}|returns")
     return fills
+
+
+def refusal_table(ctx, rule, fa, table, what, extra_terms=(), skip_handlers=True, allow_other=False):
+    """every `raise` of the function is one row of `table` = [(substring of the raise's text, guard text)]: it is reached under its guard
+    (dominance) and under no condition outside the table's own tests (nothing narrows or widens a refusal), and every row is present.
+    Decides both directions of a validator: what must be refused is refused, and nothing else is."""
+    q = fa.fi.qualname
+    all_guards = [g for _m, g in table] + list(extra_terms)
+    matched = set()
+    for r, _k in raise_kinds(fa):
+        if skip_handlers and in_handler(r, fa) is not None:
+            continue
+        txt = norm_text(r)
+        rows = [i for i, (m, _g) in enumerate(table) if m in txt and i not in matched] or [i for i, (m, _g) in enumerate(table) if m in txt]
+        if not rows:
+            if not allow_other:
+                ctx.ob(rule, False, fa.site(r), f"{what}: no refusal beyond the listed ones", detail=f"additional refusal `{txt[:90]}`", func=q, key=f"{rule}|{q}|unlisted|{txt[:40]}")
+            continue
+        i = rows[0]
+        matched.add(i)
+        m, g = table[i]
+        ok, missing, wit = fa.guarded(r, g)
+        ctx.ob(rule, ok, fa.site(r), f"{what}: `{m}` is raised only under `{g}`", detail="" if ok else f"missing [{fmt_missing(missing)}]; {wit}", func=q, key=f"{rule}|{q}|{m[:40]}|dom")
+        only_terms(ctx, rule, fa, r, all_guards, f"{what}: `{m}` depends on the validator's own tests only", key=f"{rule}|{q}|{m[:40]}|terms")
+    for i, (m, g) in enumerate(table):
+        if i not in matched:
+            ctx.ob(rule, False, fa.site(), f"{what}: refusal `{m}` (under `{g}`) is present", detail="the raise is gone", func=q, key=f"{rule}|{q}|{m[:40]}|present")
+    return matched
 
 
 def ref_sites(prog, name, loads_only=True):
